@@ -214,12 +214,19 @@ PROPS = {
     },
     "C04": {
         "lean_modules": ["TableauVerif.Props.C04", "TableauVerif.Props.C04Rewrite", "TableauVerif.Props.C11"],
-        "oracles": ["c04.det", "c11.merge", "c13.dry", "c04.rewrite"],
+        "oracles": ["c04.det", "c11.merge", "c13.dry", "c04.rewrite", "c04.alias"],
         "streams": [
             ("e2e.C04.determinism", 32, 600, 8),
+            # first uses of one enum's alias table by several goroutines at once (fresh descriptor per case)
+            ("replay.C04.enumAlias", 400, 20000, 4),
             ("e2e.C11.merge", 200, 10000, 8),
             ("e2e.C13.dryrun", 30, 1000),
             ("corr.xfs.rewriteSubdir", 3000, 100000),
+        ],
+        # once more under Go's race detector: an unsynchronised access on an exercised path fails the op
+        "race_streams": [
+            ("e2e.C04.determinism", 8, 100, 4),
+            ("replay.C04.enumAlias", 60, 2000, 4),
         ],
         "assumptions": [
             "abstraction: the Go scheduler, the map hash seed and directory/glob enumeration are 'some permutation / some interleaving'; the theorems quantify over all of them; the runtime itself is trusted to realise one",
@@ -279,7 +286,7 @@ PROPS = {
     },
     "C05": {
         "lean_modules": ["TableauVerif.Props.C05", "TableauVerif.Props.C16Pools", "TableauVerif.Props.C05Loops"],
-        "oracles": ["c05.typeinfos", "c05.gen", "c13.dry", "c11.merge", "c04.det", "c17.fuzz", "c17.cross"],
+        "oracles": ["c05.typeinfos", "c05.gen", "c13.dry", "c11.merge", "c04.det", "c17.fuzz", "c17.cross", "c04.alias"],
         "streams": [
             ("replay.C05.typeinfos", 2, 12, 1),
             # termination of whole conversions on arbitrary workbooks (watchdog; D47: cross:-1 on an optional sheet)
@@ -297,6 +304,7 @@ PROPS = {
             ("e2e.C13.dryrun", 12, 300, 4),
             ("e2e.C11.merge", 16, 400, 4),
             ("e2e.C04.determinism", 8, 100, 4),
+            ("replay.C04.enumAlias", 60, 2000, 4),
         ],
         "assumptions": [
             "race streams: Go's race detector sees only the interleavings and paths the generated runs exercise (no proof of race freedom); the lock discipline obligations cover the registries and caches for all schedules",
